@@ -264,7 +264,7 @@ func c15ParsePair(s string, n int) ([]int, bool) {
 	return o, true
 }
 
-func newC15Env(r *Run, line string, cfg []string) *c15Env {
+func newC15Env(r *Run, line string, cfg []string, live *c15Engine) *c15Env {
 	kv := map[string]string{}
 	for _, t := range cfg {
 		if i := strings.IndexByte(t, '='); i > 0 {
@@ -274,7 +274,11 @@ func newC15Env(r *Run, line string, cfg []string) *c15Env {
 	capN, _ := strconv.Atoi(kv["cap"])
 	width, _ := strconv.Atoi(kv["width"])
 	eng := &fakeEngine{}
-	b := rob.MakeBuilder().WithEngine(eng).WithFreq(1 * sim.GHz).
+	var engine sim.Engine = eng
+	if live != nil {
+		engine = live
+	}
+	b := rob.MakeBuilder().WithEngine(engine).WithFreq(1 * sim.GHz).
 		WithBufferSize(capN).WithNumReqPerCycle(width)
 	if kv["bottom"] != "0" {
 		b = b.WithBottomUnit(c15BottomUnit)
@@ -611,7 +615,7 @@ func runC15Scenario(r *Run, line string, closed bool) *c15Env {
 	segs := strings.Split(line, ";")
 	cfg := strings.Fields(segs[0])
 	var e *c15Env
-	if f := catch(func() { e = newC15Env(r, line, cfg) }); f != "" || e == nil {
+	if f := catch(func() { e = newC15Env(r, line, cfg, nil) }); f != "" || e == nil {
 		r.Case(line, "bad-cfg")
 		return nil
 	}
@@ -712,7 +716,13 @@ func genC15Scenario(rng *Rng, big bool) (string, bool) {
 	capN := rng.Pick(1, 2, 3, 4, 4, 6, 8, 16)
 	width := rng.Pick(1, 1, 2, 2, 3, 4)
 	pb := "def"
-	if rng.Chance(55) {
+	shipped := rng.Chance(6) // the configurations of shaderarray/builder.go
+	if shipped {
+		capN, width = 128, 4
+		if rng.Bool() {
+			capN, width = 512, 32
+		}
+	} else if rng.Chance(55) {
 		pb = fmt.Sprintf("%d,%d,%d,%d", rng.Range(1, 4), rng.Range(1, 4), rng.Range(1, 4), rng.Range(1, 4))
 	}
 	cb := "def"
@@ -794,9 +804,257 @@ func genC15Scenario(rng *Rng, big bool) (string, bool) {
 	}
 	closed := rng.Chance(80)
 	if closed {
-		ops = append(ops, c15Closing(rng, 3*capN+24)...)
+		rounds := 3*capN + 24
+		if rounds > n+40 {
+			rounds = n + 40
+		}
+		ops = append(ops, c15Closing(rng, rounds)...)
 	}
 	return strings.Join(ops, " ; "), closed
+}
+
+// ---------------------------------------------------------------- engine-faithful closed runs
+
+// c15Engine keeps the tick events the component schedules; the harness runs them
+// one at a time. The component is ticked only when it asked to be (Akita's rule:
+// Deliver into an empty incoming buffer, an outgoing buffer leaving the full
+// state, or a tick that made progress), so a lost wake-up shows as a request that
+// is never answered although the environment did everything it owes.
+type c15Engine struct {
+	sim.HookableBase
+	now sim.VTimeInSec
+	q   []sim.Event
+}
+
+func (e *c15Engine) Schedule(evt sim.Event)      { e.q = append(e.q, evt) }
+func (e *c15Engine) Run() error                  { return nil }
+func (e *c15Engine) Pause()                      {}
+func (e *c15Engine) Continue()                   {}
+func (e *c15Engine) CurrentTime() sim.VTimeInSec { return e.now }
+
+func (e *c15Engine) runOne() bool {
+	if len(e.q) == 0 {
+		return false
+	}
+	best := 0
+	for i, ev := range e.q {
+		if ev.Time() < e.q[best].Time() {
+			best = i
+		}
+	}
+	ev := e.q[best]
+	e.q = append(e.q[:best:best], e.q[best+1:]...)
+	if ev.Time() > e.now {
+		e.now = ev.Time()
+	}
+	_ = ev.Handler().Handle(ev)
+	return true
+}
+
+func c15Live(r *Run, rng *Rng, idx int) {
+	capN := rng.Pick(1, 2, 3, 4, 8)
+	width := rng.Pick(1, 1, 2, 4)
+	pb := "def"
+	if rng.Chance(60) {
+		pb = fmt.Sprintf("%d,%d,%d,%d", rng.Range(1, 4), rng.Range(1, 4), rng.Range(1, 4), rng.Range(1, 4))
+	}
+	cb := "def"
+	if rng.Chance(30) {
+		cb = fmt.Sprintf("%d,%d", rng.Range(1, 2), rng.Range(1, 2))
+	}
+	cfg := fmt.Sprintf("c15-live cap=%d width=%d pb=%s cb=%s bottom=1", capN, width, pb, cb)
+	line := fmt.Sprintf("%s seed=%d run=%d", cfg, r.Seed, idx)
+	eng := &c15Engine{}
+	var e *c15Env
+	if f := catch(func() { e = newC15Env(r, line, strings.Fields(cfg), eng) }); f != "" {
+		r.Failf("C15.live.setup", line, "%s", f)
+		return
+	}
+	nReq := rng.Range(1, 40)
+	var ctlPlan []string
+	if rng.Chance(50) {
+		for i := rng.Range(1, 3); i > 0; i-- {
+			ctlPlan = append(ctlPlan, "F", "S")
+		}
+	}
+	var log []string
+	act := func(s string) {
+		if len(log) < 400 {
+			log = append(log, s)
+		}
+	}
+	var waitingReq mem.AccessReq // built, Deliver failed, retried later (never dropped)
+	var waitingCtl string
+	flushing := false
+	idle := func() {
+		if len(eng.q) == 0 {
+			eng.now += sim.VTimeInSec(rng.Range(1, 3)) * 1e-9
+		}
+	}
+	tryReq := func() bool {
+		if waitingReq == nil {
+			if nReq == 0 {
+				return false
+			}
+			nReq--
+			src := c15Src(rng.Range(1, 3))
+			if rng.Bool() {
+				waitingReq = mem.ReadReqBuilder{}.WithSrc(src).WithDst(e.top.AsRemote()).WithPID(1).
+					WithAddress(uint64(rng.Intn(1<<12) * 4)).WithByteSize(uint64(rng.Pick(4, 8, 64))).Build()
+			} else {
+				waitingReq = mem.WriteReqBuilder{}.WithSrc(src).WithDst(e.top.AsRemote()).WithPID(1).
+					WithAddress(uint64(rng.Intn(1<<12) * 4)).WithData(rng.Bytes(4)).Build()
+			}
+		}
+		idle()
+		if e.top.Deliver(waitingReq) == nil {
+			e.byID[waitingReq.Meta().ID] = len(e.reqs)
+			e.reqs = append(e.reqs, &c15Req{msg: waitingReq})
+			waitingReq = nil
+			act("req")
+			return true
+		}
+		return false
+	}
+	tryCtl := func() bool {
+		if waitingCtl == "" {
+			if len(ctlPlan) == 0 {
+				return false
+			}
+			waitingCtl, ctlPlan = ctlPlan[0], ctlPlan[1:]
+		}
+		b := mem.ControlMsgBuilder{}.WithSrc("Ctrl").WithDst(e.ctl.AsRemote())
+		if waitingCtl == "F" {
+			b = b.ToDiscardTransactions()
+		} else {
+			b = b.ToRestart()
+		}
+		idle()
+		if e.ctl.Deliver(b.Build()) == nil {
+			act(waitingCtl)
+			flushing = waitingCtl == "F"
+			waitingCtl = ""
+			return true
+		}
+		return false
+	}
+	drainBot := func() bool {
+		m := e.bot.RetrieveOutgoing()
+		if m == nil {
+			return false
+		}
+		e.outstanding = append(e.outstanding, m.(mem.AccessReq))
+		act("db")
+		return true
+	}
+	respond := func(j int) bool {
+		if len(e.outstanding) == 0 {
+			return false
+		}
+		j %= len(e.outstanding)
+		rsp, _ := e.payloadFor(e.outstanding[j], "a7")
+		idle()
+		if e.bot.Deliver(rsp) != nil {
+			return false
+		}
+		e.outstanding = append(e.outstanding[:j:j], e.outstanding[j+1:]...)
+		act(fmt.Sprintf("r%d", j))
+		return true
+	}
+	drainTop := func() bool {
+		if e.top.RetrieveOutgoing() == nil {
+			return false
+		}
+		act("dt")
+		return true
+	}
+	drainCtl := func() bool {
+		if e.ctl.RetrieveOutgoing() == nil {
+			return false
+		}
+		act("dc")
+		return true
+	}
+	tick := func() bool {
+		ok := false
+		if f := catch(func() { ok = eng.runOne() }); f != "" {
+			e.fail("C15.live.panic", "%s after %s", f, strings.Join(log, " "))
+			return false
+		}
+		if ok {
+			act("t")
+		}
+		return ok
+	}
+	// open phase: random interleaving of environment moves and scheduled ticks
+	for step := 0; step < 60+rng.Intn(600); step++ {
+		switch x := rng.Intn(100); {
+		case x < 20:
+			tryReq()
+		case x < 50:
+			tick()
+		case x < 62:
+			drainBot()
+		case x < 80:
+			respond(rng.Intn(8))
+		case x < 90:
+			drainTop()
+		case x < 94:
+			drainCtl()
+		default:
+			tryCtl()
+		}
+	}
+	// closing phase: the environment does everything it owes, the component is
+	// ticked exactly when it scheduled itself
+	for round := 0; round < 100000; round++ {
+		did := false
+		for tick() {
+			did = true
+		}
+		did = drainCtl() || did
+		did = tryCtl() || did
+		if waitingCtl == "" && len(ctlPlan) == 0 && !flushing {
+			did = tryReq() || did
+		}
+		for drainBot() {
+			did = true
+		}
+		for respond(0) {
+			did = true
+		}
+		for drainTop() {
+			did = true
+		}
+		if !did && len(eng.q) == 0 {
+			break
+		}
+	}
+	r.Checked("live")
+	r.Count("c15.live-run")
+	r.CountN("c15.live-accepted", e.nAccepted)
+	r.CountN("c15.live-delivered", e.nDelivered)
+	tail := log
+	if len(tail) > 120 {
+		tail = tail[len(tail)-120:]
+	}
+	n, _, fl := e.rb.VerifState()
+	for i, q := range e.reqs {
+		if q.accepted && !q.discard && q.answers != 1 {
+			e.fail("C15.live.stuck", "request %d accepted, not discarded, answered %d times; component asleep with %d transactions (flushing=%v) although every port was served; moves: … %s",
+				i, q.answers, n, fl, strings.Join(tail, " "))
+			return
+		}
+		if !q.accepted && !q.dropped {
+			e.fail("C15.live.stuck-top", "request %d never accepted; component asleep (flushing=%v, %d transactions) although every port was served; moves: … %s",
+				i, fl, n, strings.Join(tail, " "))
+			return
+		}
+	}
+	if waitingReq != nil || nReq > 0 || waitingCtl != "" || len(ctlPlan) > 0 {
+		e.fail("C15.live.stuck-port", "environment could not hand over its messages (req left %d, ctl left %d); moves: … %s",
+			nReq, len(ctlPlan), strings.Join(tail, " "))
+	}
 }
 
 func (r *Rng) pickStr(xs ...string) string { return xs[r.Intn(len(xs))] }
@@ -807,7 +1065,7 @@ var c15Corpus = []struct {
 	closed bool
 }{
 	// reverse-order responses, capacity 4
-	{"c15 cap=4 width=1 pb=def cb=def bottom=1 ; R 1 1 0 4 0 ; R 1 1 64 4 0 ; W 2 1 128 aabbccdd 1111 0 ; R 1 1 192 4 1 ; t ; t ; t ; t ; db 8 ; r 3 a1 ; r 2 a2 ; r 1 a3 ; t ; t ; t ; dt 8 ; r 0 a4 ; t ; t ; t ; t ; t ; dt 8", false},
+	{"c15 cap=4 width=1 pb=4,4,4,4 cb=def bottom=1 ; R 1 1 0 4 0 ; R 1 1 64 4 0 ; W 2 1 128 aabbccdd 1111 0 ; R 1 1 192 4 1 ; t ; t ; t ; t ; db 8 ; r 3 a1 ; r 2 a2 ; r 1 a3 ; t ; t ; t ; dt 8 ; r 0 a4 ; t ; t ; t ; t ; t ; dt 8", false},
 	// capacity 1: second request waits
 	{"c15 cap=1 width=4 pb=def cb=def bottom=1 ; R 1 1 0 4 0 ; R 1 1 64 4 0 ; t ; t ; db 8 ; r 0 a0 ; t ; t ; db 8 ; dt 8 ; r 0 a0 ; t ; t ; dt 8", false},
 	// top port full: the response must wait, order kept
@@ -821,7 +1079,7 @@ var c15Corpus = []struct {
 	// restart drops requests waiting in the Top port
 	{"c15 cap=1 width=1 pb=def cb=def bottom=1 ; R 1 1 0 4 0 ; R 1 1 64 4 0 ; t ; F ; t ; dc ; S ; t ; dc ; t ; t ; db 4 ; R 1 1 128 4 0 ; t ; t ; db 4 ; r 1 a0 ; r 0 a0 ; t ; t ; dt 4", false},
 	// duplicate response: the latest payload before retirement wins; mismatching kind is passed through
-	{"c15 cap=2 width=1 pb=def cb=def bottom=1 ; R 1 1 0 4 0 ; R 1 1 64 4 0 ; t ; t ; db 2 ; rk 1 d:01020304 ; rk 1 d:05060708 ; r 1 w ; t ; t ; t ; r 0 a0 ; t ; t ; t ; dt 4", false},
+	{"c15 cap=2 width=1 pb=4,4,4,4 cb=def bottom=1 ; R 1 1 0 4 0 ; R 1 1 64 4 0 ; t ; t ; db 2 ; rk 1 d:01020304 ; rk 1 d:05060708 ; r 1 w ; t ; t ; t ; r 0 a0 ; t ; t ; t ; dt 4", false},
 	// malformed: control message with neither flag; empty requester; no bottom unit
 	{"c15 cap=2 width=1 pb=def cb=def bottom=1 ; N ; t ; t", false},
 	{"c15 cap=2 width=1 pb=def cb=def bottom=1 ; R 0 1 0 4 0 ; t ; db 1 ; r 0 a0 ; t ; t ; t", false},
@@ -840,5 +1098,12 @@ func runC15(r *Run, rng *Rng, replay string) {
 	for i := 0; i < n; i++ {
 		line, closed := genC15Scenario(rng, i%12 == 0)
 		runC15Scenario(r, line, closed)
+	}
+	nl := 1500
+	if thorough {
+		nl = 30000
+	}
+	for i := 0; i < nl; i++ {
+		c15Live(r, rng, i)
 	}
 }
